@@ -147,7 +147,7 @@ fn order_sensitive(kind: u8, names: Vec<u16>) -> (String, Single) {
     if ns.len() < 2 {
         ns = vec!["beta", "alpha"];
     }
-    match kind % 6 {
+    match kind % 8 {
         0 => {
             let args = ns.iter().enumerate().map(|(i, n)| format!("${}: {}", n, i)).collect::<Vec<_>>().join(", ");
             ("gen-keywords".into(), Single::scss(format!(
@@ -188,6 +188,30 @@ fn order_sensitive(kind: u8, names: Vec<u16>) -> (String, Single) {
             let body = ns.iter().map(|n| format!("${}", n)).collect::<Vec<_>>().join(" ");
             ("gen-named-arg-eval-order".into(), Single::scss(format!(
                 "@function t($x) {{ @debug $x; @return $x; }}\n@function g({}) {{ @return {}; }}\na {{ b: g({}); }}\n", params, body, args)))
+        }
+        6 | 7 => {
+            // members reached through `@forward … show/hide` (optionally prefixed): the filtered
+            // member view must list them in a stable order
+            let mut m = String::new();
+            for (i, n) in ns.iter().enumerate() {
+                m.push_str(&format!("${}: {};\n@function f-{}() {{ @return {}; }}\n", n, i, n, i));
+            }
+            let prefix = if kind % 16 >= 8 { " as p-*" } else { "" };
+            let pre = if prefix.is_empty() { "" } else { "p-" };
+            let list = ns
+                .iter()
+                .map(|n| format!("${}{}", pre, n))
+                .chain(ns.iter().map(|n| format!("{}f-{}", pre, n)))
+                .collect::<Vec<_>>()
+                .join(", ");
+            let filter = if kind % 8 == 6 { format!(" show {}", list) } else { format!(" hide {}zz-none", pre) };
+            let mut s = Single::scss("");
+            s.files.push(("m.scss".into(), Bytes::Text(m)));
+            s.files.push(("mid.scss".into(), Bytes::Text(format!("@forward \"m\"{}{};\n", prefix, filter))));
+            s.files.push(("entry.scss".into(), Bytes::Text(
+                "@use \"sass:meta\";\n@use \"mid\";\na { v: inspect(meta.module-variables(\"mid\")); f: inspect(meta.module-functions(\"mid\")); }\n".into())));
+            s.entry = Entry::Path("entry.scss".into());
+            ("gen-forwarded-members".into(), s)
         }
         _ => {
             let conf = ns.iter().map(|n| format!("${}: 1", n)).collect::<Vec<_>>().join(", ");
@@ -390,6 +414,12 @@ impl Prop for C02 {
                         json!({"fresh_thread_empty_history": base_t, "other": other}),
                     ))
                 };
+                // 0. once more on another fresh thread: nothing but the source may decide the result
+                // (per-instance hash seeds differ between two compilations even within one process)
+                let again = cx.run_job(&Job::one(observed.clone())).pop().unwrap();
+                if !again.outcome.is_abnormal() && res_text(&again) != base_t {
+                    return fail("repeat-fresh-thread", &res_text(&again));
+                }
                 // 1. same thread, after the history
                 if !history.is_empty() {
                     let mut steps = history.clone();
